@@ -43,7 +43,7 @@ Proof.
 Qed.
 Example ex_history :
   exists c hb1 hb2, run_ops ex_fields ex_ops conn_init
-    = Ok (c, [EvAlloc 1; EvSent None 2 hb1; EvSent (Some 16909060) 16909060 hb2; EvAlloc 3; EvSendErr None; EvAlloc 5])
+    = Ok (c, [EvAlloc 1; EvSent None 2 hb1; EvSent (Some 16909060) 16909060 hb2; EvAlloc 3; EvSendErr None []; EvAlloc 5])
     /\ serial_counter c = 6 /\ wire_serial hb1 = Some 2 /\ wire_serial hb2 = Some 16909060.
 Proof. do 3 eexists. vm_compute. repeat split; reflexivity. Qed.
 (* the failed send consumed serial 4: it is never handed out *)
@@ -53,6 +53,25 @@ Example ex_history_spec : forall c evs, run_ops ex_fields ex_ops conn_init = Ok 
 Proof. intros c evs H. eapply serials_fresh_increasing; [exact ex_history_wf|exact H]. Qed.
 Example ex_nallocs : nallocs ex_ops = 5.
 Proof. vm_compute. reflexivity. Qed.
+
+(* a send suspended and resumed with three allocations in between, fresh and preset; a failing one *)
+Example ex_resumed :
+  exists c hb1 hb2, run_ops ex_fields [OpAlloc; OpSendResumed (ex_msg LE 0 None [1; 2; 3]) 3; OpSendResumed (ex_msg BE 0 (Some 7) []) 1;
+                                      OpSendResumed (ex_msg LE 255 None []) 2; OpAlloc] conn_init
+    = Ok (c, [EvAlloc 1; EvSentResumed None [3; 4; 5] 2 hb1; EvSentResumed (Some 7) [6] 7 hb2; EvSendErr None [8; 9]; EvAlloc 10])
+    /\ wire_serial hb1 = Some 2 /\ wire_serial hb2 = Some 7 /\ serial_counter c = 11.
+Proof. do 3 eexists. vm_compute. repeat split; reflexivity. Qed.
+Example ex_resumed_issued : issued [EvAlloc 1; EvSentResumed None [3; 4; 5] 2 []; EvSentResumed (Some 7) [6] 7 []; EvSendErr None [8; 9]; EvAlloc 10]
+  = [1; 2; 3; 4; 5; 6; 8; 9; 10].
+Proof. reflexivity. Qed.
+Example ex_resumed_runs_out :
+  step ex_fields {| header_buf := []; serial_counter := 4294967293 |} (OpSendResumed (ex_msg LE 0 None []) 2) = Panic
+  /\ is_ok (step ex_fields {| header_buf := []; serial_counter := 4294967293 |} (OpSendResumed (ex_msg LE 0 None []) 1)) = true.
+Proof. vm_compute. auto. Qed.
+
+(* a header field array above 2^26 bytes is refused (check_marshalled_array_len) *)
+Example ex_fields_too_long : check_marshalled_array_len (2^26) = Ok (2^26) /\ check_marshalled_array_len (2^26 + 1) = Err.
+Proof. vm_compute. auto. Qed.
 
 (* the end of the serial space: 2^32-2 is the last serial, asking again panics *)
 Example ex_last_serial :
